@@ -446,10 +446,61 @@ def _find_ite(t, depth=0):
     return None
 
 
+def _factors(t):
+    """t as sign * product of factors (syntactic)"""
+    k = t.decl().kind() if z3.is_app(t) else None
+    if k == z3.Z3_OP_MUL:
+        out = []
+        for c in t.children():
+            out += _factors(c)
+        return out
+    if k == z3.Z3_OP_UMINUS:
+        return [rv(-1)] + _factors(t.arg(0))
+    return [t]
+
+
+def _hoist_sign(t):
+    """(-a)/d -> -(a/d)   (syntactic normal form used when looking for exp(a) exp(-a) = 1 instances)"""
+    if z3.is_app(t) and t.decl().kind() == z3.Z3_OP_DIV and not is_num(t.arg(1)):
+        fs = _factors(t.arg(0))
+        sign = 1
+        rest = []
+        for f in fs:
+            if is_num(f) and num(f) < 0:
+                sign = -sign; f = rv(-num(f))
+            rest.append(f)
+        out = rv(1)
+        for r in rest:
+            out = T.mul(out, r)
+        q = z3.simplify(out) / t.arg(1)
+        return -q if sign < 0 else q
+    return t
+
+
+def _cancel_div(t):
+    """(d * rest) / d -> rest for a syntactically identical non-numeric factor d (valid wherever the division is defined)"""
+    if not (z3.is_app(t) and t.decl().kind() == z3.Z3_OP_DIV) or is_num(t.arg(1)):
+        return t
+    d = t.arg(1)
+    fs = _factors(t.arg(0))
+    for i, f in enumerate(fs):
+        if z3.eq(f, d):
+            rest = fs[:i] + fs[i + 1:]
+            out = rv(1)
+            for r in rest:
+                out = T.mul(out, r)
+            return z3.simplify(out)
+    return t
+
+
 def s_exp(t):
     if is_num(t) and num(t) == 0:
         return rv(1)
     ctx = C()
+    if ctx.notes.get("exp_monotone"):
+        t2 = _cancel_div(t)
+        if not z3.eq(t2, t):
+            return s_exp(t2)
     it = _find_ite(t) if small_term(t, 120) else None
     if it is not None and z3.is_real(it):
         c_, a_, b_ = it.children()
@@ -497,7 +548,12 @@ def s_exp(t):
     small = len(T.subterm_ids([t])) <= 40
     for s_, es in (exps[-24:] if small else []):
         try:
+            if ctx.notes.get("exp_monotone"):
+                # strict monotonicity of exp between the exponentials on this path (switched on by contracts whose branch conditions compare them)
+                ctx.axiom([e, es], z3.And(z3.Implies(t < s_, e < es), z3.Implies(t > s_, e > es)))
             tot = z3.simplify(s_ + t)
+            if ctx.notes.get("exp_monotone") and not is_num(tot):
+                tot = z3.simplify(_hoist_sign(s_) + _hoist_sign(t))
             if is_num(tot) and num(tot) == 0:
                 ctx.axiom([e, es], e * es == 1); continue
             dif = z3.simplify(s_ - t)
@@ -524,6 +580,13 @@ def s_log(t):
     l = logf(t)
     C().mark_partial(l, t > 0, "log-arg-positive")
     C().axiom([l], z3.Implies(t > 0, expf(l) == t))
+    if C().notes.get("exp_monotone"):
+        # strict monotonicity of log between the logarithms on this path (see s_exp)
+        logs = C().notes.setdefault("logs", [])
+        if all(not z3.eq(l, l2) for _, l2 in logs):
+            for t2, l2 in logs[-24:]:
+                C().axiom([l, l2], z3.Implies(z3.And(t > 0, t2 > 0), z3.And(z3.Implies(t < t2, l < l2), z3.Implies(t > t2, l > l2))))
+            logs.append((t, l))
     if z3.is_app(t) and t.decl().kind() == z3.Z3_OP_UNINTERPRETED and t.decl().name() == "expf":
         C().axiom([l], l == t.arg(0))
     return l
